@@ -58,7 +58,7 @@ pub fn routes(spec: &AppSpec) -> Vec<RouteInfo> {
                     rec(spec, bp, scope, &np, &nd, &chain, &observers, out);
                     scope.pop();
                 }
-                Reg::Ctor { .. } => {}
+                Reg::Ctor { .. } | Reg::Gen { .. } => {}
             }
         }
     }
@@ -299,6 +299,48 @@ pub fn fallible_reregistered_after_infallible(spec: &AppSpec, scope: &[usize], t
         return false;
     }
     false
+}
+
+/// Which constructor builds the generic wrapper `kind` instantiated with `inner` for a route in
+/// `scope`: the nearest enclosing blueprint that registers an applicable constructor wins (the generic
+/// one applies to every instantiation, a concrete one to its own). `None`: not decidable from the
+/// documentation (a blueprint registers both an applicable concrete and the generic constructor).
+pub fn expected_gen_by(spec: &AppSpec, k: usize, scope: &[usize], kind: u8, inner: usize) -> Option<String> {
+    let letter = crate::emit::GEN_KINDS[kind as usize % 4].0.to_lowercase();
+    let mut any = false;
+    spec.walk_regs(&mut |r, _| {
+        if matches!(r, Reg::Gen { kind: kk, .. } if *kk % 4 == kind % 4) {
+            any = true;
+        }
+    });
+    if !any {
+        return Some(format!("m{k}::g_{letter}"));
+    }
+    for regs in scopes(spec, scope).iter().rev() {
+        let generic = regs.iter().any(|r| matches!(r, Reg::Gen { kind: kk, concrete_for: None } if *kk % 4 == kind % 4));
+        let concrete = regs.iter().any(|r| matches!(r, Reg::Gen { kind: kk, concrete_for: Some(t) } if *kk % 4 == kind % 4 && *t == inner));
+        match (generic, concrete) {
+            (true, true) => return None,
+            (true, false) => return Some(format!("m{k}::g_{letter}")),
+            (false, true) => return Some(format!("m{k}::gc_{letter}_{inner}")),
+            (false, false) => {}
+        }
+    }
+    None
+}
+
+/// The blueprints (as scope paths) in which component `idx` is registered and that are proper
+/// ancestors of `scope`.
+pub fn ancestor_registration_scopes(spec: &AppSpec, idx: usize, scope: &[usize]) -> Vec<Vec<usize>> {
+    let mut out = vec![];
+    for n in 0..scope.len() {
+        let anc = &scope[..n];
+        let regs = scopes(spec, anc);
+        if regs.last().is_some_and(|r| r.iter().any(|x| matches!(x, Reg::Comp { idx: c } if *c == idx))) {
+            out.push(anc.to_vec());
+        }
+    }
+    out
 }
 
 pub fn expected_by(spec: &AppSpec, k: usize, scope: &[usize], ty: usize) -> Option<String> {
